@@ -45,7 +45,20 @@ func (Prop) Rule() string {
 		"E3 tamper: for plaintext lengths {0,1,15,16,17,64,80} x AAD {0,1,16,20} x every (nonce,tag) size: every byte position of nonce, AAD, ciphertext, tag x {^01,^80} (thorough: the 9-value substitution set), " +
 		"every truncation of ciphertext||tag and of AAD, one-byte extensions; Open with dst = prefix + spare capacity prefilled 0xAA and in place must return (nil, err) with the would-be output region all zero " +
 		"(an acceptance is a violation only if the reference rejects the same input). Keys rotate deterministically over 4 SM4 keys (standard vector key, zero, ones, mixed). " +
-		"distinct_nontrivial counts distinct (mode, variant, plaintext length, AAD length, nonce class) classes."
+		"distinct_nontrivial counts distinct (mode, variant, plaintext length, AAD length, nonce class) classes. " +
+		"Widened dimensions (widen.go, widen2.go; 13 representative objects: GCM (12,16) (12,12) (12,13) (12,15) (16,16) (1,16) (13,16) (17,16), CCM (12,16) (7,4) (13,8) (8,10) (13,16); native and hidden): " +
+		"capacity classes: Seal/Open with dst empty-without-capacity, prefix-without-capacity, prefix/empty/in-place with 1,15,16,17,64 spare dirty bytes behind the result (capacity ending at the guard page), capacity for the ciphertext but not the tag / one byte, dst = plaintext[:0] or ciphertext[:0] with too little capacity, x 18 plaintext lengths (24 thorough) x AAD {0,13,17}; " +
+		"per call up to six single-byte corruptions opened with dst nil / empty / prefix+ample dirty / in place with stale bytes behind the tag: (nil, err), output zeroed, nonce/AAD/ciphertext arguments unchanged, and the repaired input in the same buffers opens. " +
+		"Ownership: two Seal(nil)/Open(nil) results must not share memory with each other or with an argument; after the harness overwrites every returned slice (whole capacity) the other result is unchanged and a third call gives the same answer. " +
+		"Record layouts: nonce, AAD and message carved from one array in all 6 orders, every slice's capacity reaching the end of the record, 24 stale bytes behind it: Seal/Open with dst elsewhere leave the whole record unchanged (also a failing Open), in-place Seal/Open with cap(dst) limited to the ciphertext||tag window write nowhere else; " +
+		"the crypto/tls record shapes Seal(rec[:5], nonce, rec[5:], rec[:5]), Open(payload[:0], nonce, payload, rec[:5]) (also corrupted) and Open with the explicit nonce sitting in the record in front of the payload; 9 plaintext x 5 AAD lengths. " +
+		"Constructor arguments: the key slice (ending at a guard page / inside a larger array) is overwritten with the next key, handed to the next sm4.NewCipher and finally filled with garbage; AEADs built before and after that, over blocks already used and over blocks never touched before, are compared with the reference of the key they were created with. " +
+		"Ordered pairs: on one object all 60x60 ordered pairs of (15 (plaintext, AAD) sizes) x (Seal, Seal in place, Open, Open of a corrupted ciphertext), with a call on a second object under another key between the two. " +
+		"Sweeps with the eight dst modes: GCM plaintext 224..420, 505..530, 639..641, 655..657 (thorough 601..1100) x AAD {0,13,20}; GCM AAD 34..300 (thorough ..1100) x plaintext {0,1,16,17,129}; GCM nonce sizes 21..31,33,47..49,63,65,127,129,143..145,255..257,1024; " +
+		"CCM plaintext 81..300 (thorough ..1100) x AAD {0,5}; CCM AAD 0..100 (thorough ..300) and 65535..65537 x plaintext {0,1,16,17}. " +
+		"The block's own NewGCM(nonceSize, tagSize) method for nonce {1,8,13,16,17,32} x tag 12..15 (pairs no crypto/cipher constructor requests; a refusal is accepted) with product and tamper oracles. " +
+		"Contents: plaintext/AAD all zero, all ff, only the first / last bit of every block, only the first byte set x nonce all zero / all ff; nil versus empty dst, plaintext and AAD. " +
+		"CCM length field: MaxLength() = 2^(8L)-1 for L = 2..7; with L = 2 Seal of 65536 bytes must not return, 65535 bytes match the reference, Open of 65536+tag bytes fails."
 }
 
 func (Prop) Assumptions() []string {
@@ -55,7 +68,10 @@ func (Prop) Assumptions() []string {
 		"keys: 4 fixed SM4 keys rotated over the product (not the full key space); contents are fixed deterministic byte patterns",
 		"dispatch tiers are those reachable on this amd64 host through GODEBUG=cpu.*=off, FORCE_SM4BLOCK_AESNI=1 and -tags purego; arm64 (NEON, SM4-NI), ppc64le and s390x assembly are not covered",
 		"the implementation type actually selected in each configuration is recorded as an observed outcome / extra counter, it is not asserted",
-		"calls that violate a documented precondition answered by a panic (wrong nonce length, inexact overlap, plaintext above the GCM/CCM length limit) are not enumerated",
+		"calls that violate a documented precondition answered by a panic (wrong nonce length, inexact overlap, plaintext above the GCM/CCM length limit) are not enumerated; the one exception is CCM with a 13-byte nonce and a 65536-byte message, where the only requirement is that Seal does not return a ciphertext (RFC 3610 cannot encode that length)",
+		"aliasing between dst and the additional data is only enumerated in the shape crypto/tls uses (the additional data is the untouched dst prefix); the spare capacity of dst is never made to overlap nonce, additional data or (other than exactly) the message",
+		"the ownership, layout, constructor-argument and pair families use the 13 representative objects, not all 34+49 size pairs; sizes there are lists, not full ranges",
+		"NewGCM called directly on the block with a nonce size other than 12 together with a truncated tag is outside what crypto/cipher 1.23 can request; it is enumerated because SP 800-38D defines those pairs, and a constructor error is accepted as an answer",
 		"counter wrap is only constructed for nonce sizes >= 16 (a full free first block is needed); GCM plaintexts >= 2^32 blocks and CCM messages >= 64 KiB with 13-byte nonces are out of reach",
 		"bytes of spare dst capacity beyond the returned slice are not constrained by the property and are not checked; writes past the slices handed to the library are caught by guard pages / canaries",
 	}
@@ -143,4 +159,5 @@ func (Prop) Run(c *engine.Ctx) {
 	runHistory(c)
 	runGCM(c)
 	runCCM(c)
+	runWiden(c) // new cases come last: the indices (sharding) of the older cases stay what they were
 }
